@@ -1188,6 +1188,13 @@ def run_history(ctx, env, hno, layout, ext, ext_missing, seed, n_random, stats, 
             rec["validity_msg"] = msg
             valid = after
         recs.append(rec)
+        rec["direct"] = {"C12": c12_oracle(w, rec) or rec.get("validity_msg"), "C03": c03_oracle(w, rec)}
+        if rec["direct"]["C12"] or rec["direct"]["C03"]:
+            # the property is violated on this input: what follows in this history runs on a damaged tree and
+            # would only produce consequences of it (possibly enormous ones) - stop here, the record is the replay
+            rec["stopped"] = True
+            shutil.rmtree(bak, ignore_errors=True) if bak else None
+            break
         if bak is not None and not rec["parse_errors"]:
             keep = base + ".after"
             pts = [tuple(p) for p in rec["points"]]
@@ -1207,6 +1214,7 @@ def run_history(ctx, env, hno, layout, ext, ext_missing, seed, n_random, stats, 
                         r2 = run_step(w, env, step, pre_f, inject=inj)
                         r2["hist"], r2["n"], r2["world"] = hno, n, w
                         r2["steps_so_far"] = steps[:n + 1]
+                        r2["direct"] = {"C12": c12_oracle(w, r2), "C03": c03_oracle(w, r2)}
                         recs.append(r2)
                         shutil.rmtree(w.outer, ignore_errors=True)
                 os.rename(keep, w.outer)
@@ -1285,6 +1293,16 @@ def evaluate(ctx, prop, out, stats, imports=("Base.Bytes", "Model.FsOps", "Model
                 raise common.BuildError("strace output not understood / timeout: %r %r" % (rec["parse_errors"], rec["stderr"]))
             nrec += 1
             ncalls += len(rec["calls"])
+            dm = rec.get("direct", {}).get(prop)
+            if dm or len(rec["calls"]) > 5000:
+                inp = replay_input(rec)
+                ctx.count((rec["hist"], rec["n"], json.dumps(rec["inject"], sort_keys=True)), nontrivial=True,
+                          sample={"cmd": inp["cmd"], "layout": w.layout, "rc": rec["rc"], "violation": dm})
+                ctx.violation("impl-violation", {"input": inp, "expected": dm or "the operation made more than 5000 mutating calls",
+                                                 "observed": {"rc": rec["rc"], "killed": rec["killed"], "stderr": rec["stderr"],
+                                                              "calls": ["%s %s%s" % (op[0], " -> ".join(str(x) for x in op[1:]), "" if ok else " [failed %s]" % e)
+                                                                        for op, ok, _, e in rec["calls"]][:80]}})
+                continue
             terms.append(allowed_term(w, rec))
             owners.append(("allowed", w, rec))
             cv = covers_terms(w, rec)
@@ -1352,7 +1370,7 @@ def evaluate(ctx, prop, out, stats, imports=("Base.Bytes", "Model.FsOps", "Model
             ctx.count((rec["hist"], rec["n"], json.dumps(inj, sort_keys=True)), nontrivial=len(rec["calls"]) > 0,
                       sample={"cmd": inp["cmd"], "layout": w.layout, "rc": rec["rc"], "inject": inj, "calls": len(rec["calls"]),
                               "allowed": val})
-            msg = own(w, rec)
+            msg = rec["direct"][prop] if "direct" in rec else own(w, rec)
             if not msg and prop == "C12":
                 msg = rec.get("validity_msg")
             observed = {"rc": rec["rc"], "killed": rec["killed"], "stderr": rec["stderr"],
@@ -1361,7 +1379,7 @@ def evaluate(ctx, prop, out, stats, imports=("Base.Bytes", "Model.FsOps", "Model
                 ctx.violation("impl-violation", {"input": inp, "observed": observed, "expected": msg})
                 continue
             if val != "true":
-                msg2 = other(w, rec)
+                msg2 = rec["direct"]["C03" if prop == "C12" else "C12"] if "direct" in rec else other(w, rec)
                 if msg2:
                     ctx.violation("impl-violation", {"input": inp, "observed": observed, "expected": msg2})
                 else:
